@@ -383,22 +383,6 @@ def msb0Window (n : Nat) (a b : Nat) : Except Err (Nat × Nat) :=
   | .error e => .error e
   | .ok k => validateSlice n k.start k.stop
 
-/-- `Bits._find` for validated `start ≤ end`. -/
-def find_ (m : Mode) (l t : Bits) (a b : Nat) (ba : Bool) : Except Err (Option Nat) :=
-  match m with
-  | .msb0 => .ok (findStore l t a b ba)
-  | .lsb0 => match msb0Window l.length a b with
-    | .error e => .error e
-    | .ok (s, e) => .ok ((rfindStore l t s e ba).map fun p => l.length - p - t.length)
-
-/-- `Bits._rfind`. -/
-def rfind_ (m : Mode) (l t : Bits) (a b : Nat) (ba : Bool) : Except Err (Option Nat) :=
-  match m with
-  | .msb0 => .ok (rfindStore l t a b ba)
-  | .lsb0 => match msb0Window l.length a b with
-    | .error e => .error e
-    | .ok (s, e) => .ok ((findStore l t s e ba).map fun p => l.length - p - t.length)
-
 /-- inner `while found:` loop of `_findall_lsb0`: pops from the end; a position is counted
     only when it passes the alignment filter.  Returns the positions yielded, the new counter and whether the
     generator returned. -/
@@ -433,6 +417,35 @@ def findallLsb0 (inc : Nat) (l t : Bits) (a b : Nat) (count : Option Nat) (ba : 
   | .ok (s0, e0) => .ok (findallLsb0Loop inc l t s0 count ba (l.length + 2) e0 0)
 
 def chunkIncrement (t : Bits) : Nat := max 8192 (t.length * 80)
+
+/-- `Bits._find` for validated `start ≤ end`.  `_find_lsb0`: with `bytealigned` the first position yielded by
+    `_findall_lsb0(bs, start, end, 1, True)`, otherwise the mirrored `_rfind_msb0(…, False)`. -/
+def find_ (m : Mode) (l t : Bits) (a b : Nat) (ba : Bool) : Except Err (Option Nat) :=
+  match m with
+  | .msb0 => .ok (findStore l t a b ba)
+  | .lsb0 =>
+    if ba then
+      match findallLsb0 (chunkIncrement t) l t a b (some 1) true with
+      | .error e => .error e
+      | .ok ps => .ok ps.head?
+    else
+      match msb0Window l.length a b with
+      | .error e => .error e
+      | .ok (s, e) => .ok ((rfindStore l t s e false).map fun p => l.length - p - t.length)
+
+/-- `Bits._rfind`.  `_rfind_lsb0`: with `bytealigned` the first match in stored order whose lsb0 position is a
+    multiple of 8, otherwise the mirrored `_find_msb0(…, False)`. -/
+def rfind_ (m : Mode) (l t : Bits) (a b : Nat) (ba : Bool) : Except Err (Option Nat) :=
+  match m with
+  | .msb0 => .ok (rfindStore l t a b ba)
+  | .lsb0 => match msb0Window l.length a b with
+    | .error e => .error e
+    | .ok (s, e) =>
+      if ba then
+        .ok (((findallMsb0Store l t s e false).find? fun p => (l.length - p - t.length) % 8 = 0).map
+          fun p => l.length - p - t.length)
+      else .ok ((findStore l t s e false).map fun p => l.length - p - t.length)
+
 
 /-- `Bits._findall` by mode. -/
 def findall_ (m : Mode) (l t : Bits) (a b : Nat) (count : Option Nat) (ba : Bool) : Except Err (List Nat) :=
@@ -810,12 +823,6 @@ def setLsb0 (env : Attrs) (value : Bool) : Attrs :=
   (if value then lsb0Table else msb0Table).foldl setAttr env
 
 def bindingToStr (b : Binding) : String := s!"{b.1}.{b.2.1}={b.2.2.1}.{b.2.2.2}"
-
-/-! ## region in which the unchanged code deviates from the mirror law
-     (known finding; the same name is the key of `REGIONS` in harness/props/C12.py) -/
-
-/-- `find` / `rfind` with `bytealigned=True` -/
-def alignedFind (ba : Bool) : Bool := ba
 
 /-! ## driver -/
 
